@@ -196,7 +196,11 @@ func judgeTokens(c *fw.Ctx, lname, text string, toks []ltok, hasLine, hasCol boo
 				if want > 1 {
 					ctx = "later-line"
 				}
-				report(fmt.Sprintf("line/delta=%+d/%s", t.line-want, ctx), fmt.Sprintf("token %d %s[%d,%d]: Line()=%d, first byte is on line %d", i, t.name, t.s, t.e, t.line, want))
+				dir := "too-small"
+				if t.line > want {
+					dir = "too-large"
+				}
+				report(fmt.Sprintf("line/%s/%s", dir, ctx), fmt.Sprintf("token %d %s[%d,%d]: Line()=%d, first byte is on line %d", i, t.name, t.s, t.e, t.line, want))
 				return
 			}
 		}
@@ -255,7 +259,7 @@ func toksDump(toks []ltok, n int) string {
 }
 
 var hostileAlphabet = []string{"a", "b", "Z", "0", "9", "_", " ", " ", "\n", "\n", "\r\n", "\t", "\"", "'", "\\", "/", "*", "{", "}", "(", ")", "[", "]", "<", ">", "=", "-", "+", ".", ",", ";", ":", "#", "%", "$", "@", "`", "|", "&", "!", "?", "~", "^",
-	"é", "я", "😀", "\u2028", "\xff", "\xc3", "\xe2\x82", bom, "\x00", "/*", "*/", "//", "<!--", "-->", "${", "%%", "::", "->", "0x", "1e", "\\u", "\\u{"}
+	"é", "я", "😀", "\u2028", "\xff", "\xc3", "\xe2\x82", bom, "\x00", "/*", "*/", "//", "<!--", "-->", "${", "%%", "::", "->", "0x", "1e", "\\u", "\\u{", ",.", ";.", ",..", ";..", " \n.", "\n\n..", "\n\n...", "\n=", "\n\n=>", ".-", ":-", ":--"}
 
 var fragmentPool = map[string][]string{
 	"tm": {"language x(go);", ":: lexer", ":: parser", "id: /[a-z]+/ (class)", "'if': /if/", "space: /[ \\t]+/ (space)", "%input a, b no-eoi;", "a -> A: b? (c | d)+ ;", "{ $$ = $1 }", "{ if (x) { y(\"}\") } }", "# comment\n", "/* c */", "%left '+' '-';", "set(first A & ~B)", "(?= A & !B)", "'\\''", "\"str\\\"ing\"", "/re\\/gex[/]/", "<flag X = true>", "[A && !B]", "%%\n{{ template }}"},
@@ -412,6 +416,13 @@ var lexRulePool = []string{
 	"abab: /(ab)+c/",
 	"aab: /a{2,4}b/",
 	"'\\\\': /\\\\/",
+	"wsdots: /[ \\t\\r\\n]+\\.\\.\\./",
+	"nlarrow: /\\n+=>/",
+	"semi: /;/ (space)",
+	"comma: /,/",
+	"crange: /[,;]\\.\\./",
+	"dots2: /[.:]--/",
+	"colon: /:/ (space)",
 }
 
 var lexKeywords = []string{"if", "else", "while", "for", "été", "return", "a", "abc", "x1", "_"}
@@ -430,13 +441,6 @@ func genLexerGrammar(r *rand.Rand, pkg string) (text string, opts map[string]boo
 		}
 		opts[o] = v
 		fmt.Fprintf(&b, "%s = %v\n", o, v)
-	}
-	if opts["tokenColumn"] || opts["tokenLineOffset"] {
-		// column tracking lives inside the line tracking code
-		if !opts["tokenLine"] {
-			opts["tokenLine"] = true
-			b.WriteString("tokenLine = true\n")
-		}
 	}
 	b.WriteString("\n:: lexer\n\n")
 	spaces := []string{"ws: /[ \\t\\r\\n]+/ (space)", "ws: /[ \\t]+/ (space)\nnl: /\\r?\\n/ (space)", "ws: /[ \\t\\r\\n\\x00]+/ (space)"}
